@@ -29,6 +29,14 @@ class ParFront(Suite):
                 sub = sorted(rng.sample(range(n), rng.randint(1, 2)))
                 D = D + [[[e] for e in reversed(sub)] if rng.random() < 0.5 else [sub]]
             cases.append({"s": opt_scheme(rng), "D": D})
+        # tie-heavy tiny datasets: pairs of complete rankings with ties (many equal costs => non-robust arcs)
+        c3 = list(gen.set_partitions_ordered([0, 1, 2]))
+        c4 = list(gen.set_partitions_ordered([0, 1, 2, 3]))
+        for a in c3:
+            for b in c3:
+                cases.append({"s": gen.UNIFYING, "D": [a, b]})
+        for _ in range(150 if tier == "quick" else 3000):
+            cases.append({"s": rng.choice([gen.UNIFYING, gen.PSEUDO, gen.INDUCED, gen.UNIFYING_HALF]), "D": [rng.choice(c4) for _ in range(rng.randint(2, 3))]})
         for _ in range(150 if tier == "quick" else 2000):
             nmax = rng.choice([3, 4, 5, 5]) if tier == "quick" else rng.choice([4, 5, 6, 6])
             cases.append({"s": opt_scheme(rng), "D": layered_dataset(rng, nmax, 4) if rng.random() < 0.7 else gen.random_dataset(rng, nmax, 4)})
@@ -118,6 +126,6 @@ if __name__ == "__main__":
     main("C07", [ParFront(), Consistent()],
          level_note="igraph's SCC order is taken as given (the merge loop model is run on the library's own parcons partition); the set of optimal "
                     "consensuses is enumerated through the verified [assigns]/[opt] for universes <= 5 (thorough 6)",
-         rule="parfront: the F7 witness, chain datasets with a few contradicting rankings (cascading merges back to the first group), layered and "
+         rule="parfront: the F7 witness, ALL pairs of complete rankings with ties over 3 elements and sampled pairs / triples over 4 (tie-heavy costs), chain datasets with a few contradicting rankings (cascading merges back to the first group), layered and "
               "random datasets; consistent_with: ALL (partition, ranking) pairs over 3 (thorough 4) elements, random pairs (refinements, "
               "unrelated, foreign / missing elements), the F8 witnesses. non-trivial = at least 2 components")
